@@ -56,7 +56,7 @@ func genC09(t *rapid.T, env *wire.GenEnv) c09Case {
 		used[id] = true
 		return id
 	}
-	body := func() []byte {
+	body0 := func() []byte {
 		switch rapid.IntRange(0, 3).Draw(t, "bodykind") {
 		case 0:
 			n := rapid.IntRange(0, 40).Draw(t, "bodylen")
@@ -80,6 +80,14 @@ func genC09(t *rapid.T, env *wire.GenEnv) c09Case {
 			}
 			return wire.EncodeSet(c.Sc.Main.Proto, &s)
 		}
+	}
+	body := func() []byte {
+		b := body0()
+		// trailing filler: a cut inside the filler leaves everything before it intact
+		if nf := rapid.SampledFrom([]int{0, 0, 1, 4, 8}).Draw(t, "filler"); nf > 0 {
+			b = append(append([]byte{}, b...), rapid.SliceOfN(rapid.Byte(), nf, nf).Draw(t, "fillerbytes")...)
+		}
+		return b
 	}
 	n := rapid.IntRange(0, 3).Draw(t, "nins")
 	for i := 0; i < n; i++ {
